@@ -137,6 +137,8 @@ def _shard(name, shard, nshards, tier, seed):
                     d = int(rng.integers(1, 4)); ns = int(rng.integers(1, 4 if d > 2 else 5))
                     dt = str(rng.choice(['int', 'float', 'complex']))
                     v = gen.exact_values(rng, (d ** ns,), dt)
+                    if rng.random() < 0.06:
+                        v = np.zeros_like(v)    # the zero vector (F12: every singular value is discarded, dummy bond kept)
                     tol = float(rng.choice([0, 0, 0.25, 0.5, 0.125]))
                     rec = kernels.Recorder()
 
@@ -253,7 +255,12 @@ def oracle_case(rng):
         elif k == 5:
             d = int(rng.integers(1, 4)); ns = int(rng.integers(1, 5))
             v = rng.standard_normal(d ** ns) + (1j * rng.standard_normal(d ** ns) if cplx else 0)
-            m = ptn.MPS.from_vector(d, ns, v, tol=0)
+            if rng.random() < 0.1:
+                v = np.zeros_like(v)     # regression corpus of F12 (zero vector)
+            try:
+                m = ptn.MPS.from_vector(d, ns, v, tol=0)
+            except AssertionError as ex:
+                return {'what': f'from_vector(tol=0) raises AssertionError on a vector of norm {np.linalg.norm(v):.3g}', 'case': ('from_vector', (d, ns, v), None)}
             if np.abs(dense_mps(m) - v).max() > 1e-9 * max(1, np.abs(v).max()):
                 return {'what': 'from_vector(tol=0) does not reproduce the vector', 'case': ('from_vector', (d, ns, v), None)}
             if not mpsgen.is_wf_mps(m):
